@@ -35,6 +35,7 @@ func init() {
 			{Name: "goroutine-in-loader", File: f, Old: "\tfor _, ld := range ctx.tylds {\n\t\tld.load()\n\t}", New: "\tdone := make(chan bool)\n\tfor _, ld := range ctx.tylds {\n\t\tgo func() { ld.load(); done <- true }()\n\t\t<-done\n\t}", Expect: "escape/go:cl.NewPackage"},
 			{Name: "fatal-in-compile", File: "cl/stmt.go", Old: "\tdefault:\n\t\tlog.Panicf(\"compileStmt failed: unknown - %T\\n\", v)", New: "\tdefault:\n\t\tlog.Fatalf(\"compileStmt failed: unknown - %T\\n\", v)", Expect: "escape/log.Fatal:cl.compileStmt"},
 			{Name: "printer-case-removed", File: "printer/nodes.go", Old: "\tcase *ast.ElemEllipsis:\n\t\tp.expr(x.Elt)\n\t\tp.print(token.ELLIPSIS)\n", New: "", Expect: "escape/log.Fatal:(*printer.printer).expr1"},
+			{Name: "retry-without-progress", File: f, Old: "\tcase *ast.StarExpr:\n\t\ttyp = t.X\n\t\tgoto retry\n\t}\n\tpanic(\"TODO: parseTypeEmbedName unexpected\")", New: "\tcase *ast.StarExpr:\n\t\ttyp = t.X\n\t\tgoto retry\n\tcase *ast.ParenExpr:\n\t\tgoto retry\n\t}\n\tpanic(\"TODO: parseTypeEmbedName unexpected\")", Expect: "retry-progress/parseTypeEmbedName:retry"},
 			{Name: "unprotected-defer-grows", File: "cl/recorder.go", Old: "\t\t\tif obj := scope.Lookup(id.Name); obj != nil {\n\t\t\t\tp.recordFuncLit(fn, obj.Type())", New: "\t\t\tif obj := scope.Lookup(id.Name); obj != nil {\n\t\t\t\tp.recordFuncLit(fn, obj.Type().(*types.Signature))", Expect: "unprotected-defer/cl.NewPackage:rec.Complete"},
 		},
 	})
@@ -186,6 +187,94 @@ func runC07(c *core.Check) {
 	} else {
 		c.Bad("anchor", "cl.enableRecover", 0, "variable not found")
 	}
+
+	// ---------- (2b) backward gotos (the `retry:` idiom) make progress
+	nRetry := 0
+	for _, fd := range core.AllFuncDecls(pk) {
+		if fd.Body == nil {
+			continue
+		}
+		labels := map[string]*ast.LabeledStmt{}
+		ast.Inspect(fd.Body, func(n ast.Node) bool {
+			if ls, ok := n.(*ast.LabeledStmt); ok {
+				labels[ls.Label.Name] = ls
+			}
+			return true
+		})
+		if len(labels) == 0 {
+			continue
+		}
+		par := parentMap(fd)
+		ast.Inspect(fd.Body, func(n ast.Node) bool {
+			br, ok := n.(*ast.BranchStmt)
+			if !ok || br.Tok != token.GOTO || br.Label == nil {
+				return true
+			}
+			ls := labels[br.Label.Name]
+			if ls == nil || br.Pos() < ls.Pos() {
+				return true // forward jump
+			}
+			nRetry++
+			key := core.FuncName(fd) + ":" + br.Label.Name
+			var subject ast.Node
+			switch st := ls.Stmt.(type) {
+			case *ast.TypeSwitchStmt:
+				subject = st.Assign
+			case *ast.SwitchStmt:
+				subject = st.Tag
+			case *ast.IfStmt:
+				subject = st.Cond
+				if st.Init != nil {
+					subject = st.Init
+				}
+			}
+			if subject == nil {
+				c.Undecided("retry-progress", key, br.Pos(), "the label of a backward goto does not mark a switch/if: cannot tell what the loop iterates on")
+				return true
+			}
+			vars := map[types.Object]bool{}
+			if as, ok := subject.(*ast.AssignStmt); ok && len(as.Rhs) == 1 {
+				subject = as.Rhs[0]
+			}
+			ast.Inspect(subject, func(m ast.Node) bool {
+				if id, ok := m.(*ast.Ident); ok {
+					if v, ok := info.Uses[id].(*types.Var); ok {
+						vars[v] = true
+					}
+				}
+				return true
+			})
+			// the statement list that contains the goto
+			var list []ast.Stmt
+			for p := par[br]; p != nil; p = par[p] {
+				if cc, ok := p.(*ast.CaseClause); ok {
+					list = cc.Body
+					break
+				}
+				if b, ok := p.(*ast.BlockStmt); ok {
+					list = b.List
+					break
+				}
+			}
+			progress := false
+			for _, st := range list {
+				if st.Pos() >= br.Pos() {
+					break
+				}
+				if as, ok := st.(*ast.AssignStmt); ok {
+					for _, l := range as.Lhs {
+						if o := identObj(info, l); o != nil && vars[o] {
+							progress = true
+						}
+					}
+				}
+			}
+			c.Decide(progress, "retry-progress", key, br.Pos(), "the variable the loop dispatches on is reassigned before jumping back", "`goto "+br.Label.Name+"` jumps back to a dispatch on a variable that this arm does not reassign: for the inputs that reach the arm the compiler spins forever (no recover can help)")
+			return true
+		})
+	}
+	c.Analysed("backward_gotos", nRetry)
+	c.Floor("retry-progress", 6)
 
 	// ---------- (3) x/build entry points
 	binfo := bk.TypesInfo
